@@ -20,11 +20,12 @@
        table regenerated from /repo and is given a number of inputs within its hard range.
      - C41_emitted_in_arities_partial: every node of every emitted graph has an in-degree
        within its operator's hard input range.
-   Missing for the full statement: a typing judgement of the Rust API (what rustc accepts);
-   output-port arities for all flows (checked per corpus flow by `arities_ok` only); "rustc
+     - C41_emitted_arities: in-degree AND out-degree of every node of every emitted graph are
+       within the operator's hard ranges (ident linearity of the emitter).
+   Missing for the full statement: a typing judgement of the Rust API (what rustc accepts); "rustc
    compiles the generated code" (sampled by building harness/h_hydro_b). *)
 From Coq Require Import List String NArith Bool.
-From HV Require Import HydroB.Model HydroB.GenOps HydroB.PEmit HydroB.PArity HydroB.PC41.
+From HV Require Import HydroB.Model HydroB.GenOps HydroB.PEmit HydroB.PArity HydroB.POut HydroB.PC41.
 Import ListNotations.
 Open Scope N_scope.
 
@@ -56,6 +57,19 @@ Theorem C41_emitted_in_arities_partial : forall (rk : N -> N) (f : flow) (g : gr
     op_takes GenOps.ops_table (n_op x) (indeg (g_edges g) (n_id x)) = true.
 Proof. exact emit_in_arities_gen. Qed.
 Print Assumptions C41_emitted_in_arities_partial.
+
+(* the arity theorem, complete: for every flow of the fragment the emitter does not panic on
+   and every node of the emitted graph, in-degree and out-degree are inside the operator's hard
+   ranges in the regenerated table (the cycle `identity` operators' out-degree = number of uses
+   of the cycle variable, which the Rust API's ownership keeps at 1) *)
+Theorem C41_emitted_arities : forall (rk : N -> N) (f : flow) (g : graph),
+  emit_flow GenOps.ops_table rk f = Some g ->
+  forall x, In x (g_nodes g) ->
+    exists r, find_row GenOps.ops_table (n_op x) = Some r /\
+      in_range (r_inn r) (indeg (g_edges g) (n_id x)) = true /\
+      (n_op x <> "identity"%string -> in_range (r_out r) (outdeg (g_edges g) (n_id x)) = true).
+Proof. exact emit_arities_complete. Qed.
+Print Assumptions C41_emitted_arities.
 
 (* a forward reference completed with a collection that depends on it synchronously:
    no ranking guards it and the emitted graph has a same-tick cycle *)
